@@ -1,45 +1,43 @@
-(* Property C04, n-port functions, all n: the specification-level matrices computed by
-   vnaconv_stozn / stoyn / ztosn / ytosn / ztoyn / ytozn (a left or right division followed by
-   the k_i/k_j scaling) satisfy their defining relation for exactly the states that satisfy the
-   input's relation.  mathcomp, arbitrary field of characteristic <> 2, any n. *)
+(* Property C04, n-port functions, all n, SPECIFICATION LEVEL: the matrices K (A^-1 B) K^-1 resp.
+   K^-1 (B A^-1) K written with mathcomp's invmx (Conv/ConvNSpec.v) satisfy their defining relation
+   for exactly the states that satisfy the input's relation.  mathcomp, arbitrary field of
+   characteristic <> 2, any n.  These statements do not mention the executable model: the theorems
+   about the code-tied model Conv/ConvN.v for all n (same statement, on list matrices and the LU
+   model) are c04_*n_same_states_all_n in Properties_C04n.v.  (Z <-> Y at this level is mulKmx /
+   mulKVmx and is not listed; the model theorems c04_ztoyn/ytozn_same_states_all_n cover it.) *)
 From mathcomp Require Import all_ssreflect all_algebra.
 Require Import LV.Conv.ConvNSpec.
 Import GRing.Theory.
 Local Open Scope ring_scope.
 
-Theorem c04_stozn_all_n (F : fieldType) (n : nat) (z zc k : 'rV[F]_n) :
+Theorem c04_stozn_spec_all_n (F : fieldType) (n : nat) (z zc k : 'rV[F]_n) :
   (2%:R : F) != 0 -> (forall j, k 0 j != 0) -> (forall j, z 0 j + zc 0 j = 2%:R * (k 0 j * k 0 j)) ->
   forall (S : 'M[F]_n) (v i : 'cV[F]_n), (1%:M - S) \in unitmx ->
   (wave_b (dZ0c zc) (dKi k) v i = S *m wave_a (dZ0 z) (dKi k) v i) <->
   (v = stozn_spec (dZ0 z) (dZ0c zc) (dK k) (dKi k) S *m i).
 Proof. by move=> H2 Hk Hz M v i; apply: stozn_correct. Qed.
-Print Assumptions c04_stozn_all_n.
+Print Assumptions c04_stozn_spec_all_n.
 
-Theorem c04_stoyn_all_n (F : fieldType) (n : nat) (z zc k : 'rV[F]_n) :
+Theorem c04_stoyn_spec_all_n (F : fieldType) (n : nat) (z zc k : 'rV[F]_n) :
   (2%:R : F) != 0 -> (forall j, k 0 j != 0) -> (forall j, z 0 j + zc 0 j = 2%:R * (k 0 j * k 0 j)) ->
   forall (S : 'M[F]_n) (v i : 'cV[F]_n), (S *m dZ0 z + dZ0c zc) \in unitmx ->
   (wave_b (dZ0c zc) (dKi k) v i = S *m wave_a (dZ0 z) (dKi k) v i) <->
   (i = stoyn_spec (dZ0 z) (dZ0c zc) (dK k) (dKi k) S *m v).
 Proof. by move=> H2 Hk Hz M v i; apply: stoyn_correct. Qed.
-Print Assumptions c04_stoyn_all_n.
+Print Assumptions c04_stoyn_spec_all_n.
 
-Theorem c04_ztosn_all_n (F : fieldType) (n : nat) (z zc k : 'rV[F]_n) :
+Theorem c04_ztosn_spec_all_n (F : fieldType) (n : nat) (z zc k : 'rV[F]_n) :
   (2%:R : F) != 0 -> (forall j, k 0 j != 0) -> (forall j, z 0 j + zc 0 j = 2%:R * (k 0 j * k 0 j)) ->
   forall (Z : 'M[F]_n) (v i : 'cV[F]_n), (Z + dZ0 z) \in unitmx ->
   (v = Z *m i) <->
   (wave_b (dZ0c zc) (dKi k) v i = ztosn_spec (dZ0 z) (dZ0c zc) (dK k) (dKi k) Z *m wave_a (dZ0 z) (dKi k) v i).
 Proof. by move=> H2 Hk Hz M v i; apply: ztosn_correct. Qed.
-Print Assumptions c04_ztosn_all_n.
+Print Assumptions c04_ztosn_spec_all_n.
 
-Theorem c04_ytosn_all_n (F : fieldType) (n : nat) (z zc k : 'rV[F]_n) :
+Theorem c04_ytosn_spec_all_n (F : fieldType) (n : nat) (z zc k : 'rV[F]_n) :
   (2%:R : F) != 0 -> (forall j, k 0 j != 0) -> (forall j, z 0 j + zc 0 j = 2%:R * (k 0 j * k 0 j)) ->
   forall (Y : 'M[F]_n) (v i : 'cV[F]_n), (1%:M + dZ0 z *m Y) \in unitmx ->
   (i = Y *m v) <->
   (wave_b (dZ0c zc) (dKi k) v i = ytosn_spec (dZ0 z) (dZ0c zc) (dK k) (dKi k) Y *m wave_a (dZ0 z) (dKi k) v i).
 Proof. by move=> H2 Hk Hz M v i; apply: ytosn_correct. Qed.
-Print Assumptions c04_ytosn_all_n.
-
-Theorem c04_ztoyn_all_n (F : fieldType) (n : nat) (Z : 'M[F]_n) (v i : 'cV[F]_n) :
-  Z \in unitmx -> (v = Z *m i) <-> (i = invmx Z *m v).
-Proof. exact (@ztoyn_rel F n Z v i). Qed.
-Print Assumptions c04_ztoyn_all_n.
+Print Assumptions c04_ytosn_spec_all_n.
